@@ -103,6 +103,7 @@ func main() {
 		h.newChainProbe()
 		h.runProbe()
 		h.racedReaderProbe(root.Fork(4_444_444))
+		h.casRaceProbe()
 		lap("probes")
 	}
 	if want("seq") {
